@@ -31,12 +31,13 @@ Theorem C14_trnorm_projects : forall R R', m_trnorm33 Rops R = Some R' -> SO3 R'
 Proof. thr. intros R R' H. um. eapply trnorm33_SO3; [|exact H]. lra. Qed.
 Print Assumptions C14_trnorm_projects.
 
-(* defined exactly when the three vectors it normalises are longer than the threshold; in particular whenever
+(* defined exactly when none of the three vectors it normalises is shorter than the threshold (unitvec tests n >= thr,
+   the complement of iszerovec, since fix 4dbd011); in particular whenever
    o x a, a x (o x a) and a have length >= 1e-6 (for a nearly valid matrix all three are close to 1) *)
 Theorem C14_trnorm_defined : forall R,
   let o := col33 R 1 in let a := col33 R 2 in let n := cross3 Rops o a in let p := cross3 Rops a n in
   (m_trnorm33 Rops R = None <->
-     norm3 Rops n <= thr_unitvec Rops \/ norm3 Rops p <= thr_unitvec Rops \/ norm3 Rops a <= thr_unitvec Rops) /\
+     norm3 Rops n < thr_unitvec Rops \/ norm3 Rops p < thr_unitvec Rops \/ norm3 Rops a < thr_unitvec Rops) /\
   (1/1000000 <= norm3 Rops n -> 1/1000000 <= norm3 Rops p -> 1/1000000 <= norm3 Rops a ->
      exists R', m_trnorm33 Rops R = Some R').
 Proof.
@@ -94,7 +95,7 @@ Qed.
 Print Assumptions C14_unitvec.
 
 Theorem C14_unitvec_defined : forall v,
-  (m_unitvec Rops v = None <-> norm3 Rops v <= thr_unitvec Rops) /\
+  (m_unitvec Rops v = None <-> norm3 Rops v < thr_unitvec Rops) /\
   (1/1000000 <= norm3 Rops v -> exists u, m_unitvec Rops v = Some u) /\
   (normsq3 Rops v = 1 -> m_unitvec Rops v = Some v).
 Proof.
@@ -298,7 +299,7 @@ Qed.
 Print Assumptions C14_trnorm2_projects.
 
 Theorem C14_trnorm2_defined_fixed : forall r00 r01 r10 r11,
-  (m_trnorm22 Rops ((r00,r01),(r10,r11)) = None <-> norm2 Rops (r01,r11) <= thr_unitvec Rops) /\
+  (m_trnorm22 Rops ((r00,r01),(r10,r11)) = None <-> norm2 Rops (r01,r11) < thr_unitvec Rops) /\
   (1/1000000 <= norm2 Rops (r01,r11) -> exists R', m_trnorm22 Rops ((r00,r01),(r10,r11)) = Some R') /\
   (SO2 ((r00,r01),(r10,r11)) -> m_trnorm22 Rops ((r00,r01),(r10,r11)) = Some ((r00,r01),(r10,r11))).
 Proof.
@@ -328,7 +329,7 @@ Example C14_nonvacuous_trnorm :
   SO3 ((0,-1,0),(1,0,0),(0,0,1)) /\ SE3 ((0,-1,0,5),(1,0,0,6),(0,0,1,7),(0,0,0,1)).
 Proof.
   thr. um. split; [|split; [|split]].
-  - eexists. apply trnorm33_defined; (apply Rlt_le_trans with 1; [lra|]); unfold norm3; cbn [sqrt_ Rops];
+  - eexists. apply trnorm33_defined; (apply Rle_trans with 1; [lra|]); unfold norm3; cbn [sqrt_ Rops];
       apply sqrt_ge_1; nm_simpl; lra.
   - unfold SO3. lra.
   - unfold SO3. repeat split; ring.
@@ -361,7 +362,7 @@ Example C14_nonvacuous_trnorm2 :
   SE2 ((0,-1,5),(1,0,6),(0,0,1)).
 Proof.
   thr. um. split; [|split; [|split]].
-  - apply trnorm22_defined. apply Rlt_le_trans with 1; [lra|]. unfold norm2; cbn [sqrt_ Rops]. apply sqrt_ge_1. nm_simpl. lra.
+  - apply trnorm22_defined. apply Rle_trans with 1; [lra|]. unfold norm2; cbn [sqrt_ Rops]. apply sqrt_ge_1. nm_simpl. lra.
   - unfold SO2. lra.
   - unfold SO2. repeat split; ring.
   - unfold SE2. nm_simpl. unfold SO2. split; [repeat split; ring|reflexivity].
@@ -382,18 +383,24 @@ Ltac pc_hyps :=
   repeat match goal with
          | H : Rltb _ _ = true |- _ => apply Rltb_true in H
          | H : Rltb _ _ = false |- _ => apply Rltb_false in H
+         | H : Rleb _ _ = true |- _ => apply Rleb_true in H
+         | H : Rleb _ _ = false |- _ => apply Rleb_false in H
          | H : True |- _ => clear H end.
 Ltac decide_ifs :=
   repeat match goal with
   | |- context [Rltb ?a ?b] =>
       first [ let E := fresh "E" in assert (E : Rltb a b = true) by (apply Rltb_true; lra); rewrite E; clear E
             | let E := fresh "E" in assert (E : Rltb a b = false) by (apply Rltb_false; lra); rewrite E; clear E ]
+  | |- context [Rleb ?a ?b] =>
+      first [ let E := fresh "E" in assert (E : Rleb a b = true) by (apply Rleb_true; lra); rewrite E; clear E
+            | let E := fresh "E" in assert (E : Rleb a b = false) by (apply Rleb_false; lra); rewrite E; clear E ]
   end.
 Ltac open_all := destruct_tuples; autounfold with c14gen smgen smlin in *; sm_simpl.
 Ltac bridge :=
   open_all; repeat rewrite (Rabs_pos_eq (sqrt _)) by apply sqrt_pos;
   pc_hyps;
-  repeat match goal with H : _ < _ |- _ => revert H | H : ~ _ < _ |- _ => revert H end;
+  repeat match goal with H : _ < _ |- _ => revert H | H : ~ _ < _ |- _ => revert H
+                    | H : _ <= _ |- _ => revert H | H : ~ _ <= _ |- _ => revert H end;
   sqrt_unify; intros; decide_ifs; cbv beta iota;
   try match goal with |- Some _ = Some _ => apply (f_equal Some) end; tuple_eq ltac:(try reflexivity; unfold Rdiv; ring).
 
@@ -404,7 +411,7 @@ Proof.
   intros v. split; [|split].
   - intros H. bridge.
   - intros H. bridge.
-  - open_all. match goal with |- (Rltb ?a ?b = true /\ _) \/ _ => destruct (Rltb a b) end; auto.
+  - open_all. match goal with |- (?f ?a ?b = _ /\ _) \/ _ => destruct (f a b) end; auto.
 Qed.
 Print Assumptions C14_bridge_unitvec.
 
@@ -416,7 +423,7 @@ Proof.
   intros v. split; [|split].
   - intros H. bridge.
   - intros H. bridge.
-  - open_all. match goal with |- (Rltb ?a ?b = true /\ _) \/ _ => destruct (Rltb a b) end; auto.
+  - open_all. match goal with |- (?f ?a ?b = _ /\ _) \/ _ => destruct (f a b) end; auto.
 Qed.
 Print Assumptions C14_bridge_unitvec_norm.
 
@@ -427,7 +434,7 @@ Proof.
   intros q. split; [|split].
   - intros H. bridge.
   - intros H. bridge.
-  - open_all. match goal with |- (Rltb ?a ?b = false /\ _) \/ _ => destruct (Rltb a b) end; auto.
+  - open_all. match goal with |- (?f ?a ?b = _ /\ _) \/ _ => destruct (f a b) end; auto.
 Qed.
 Print Assumptions C14_bridge_qunit.
 
@@ -448,7 +455,7 @@ Proof.
   - intros H. bridge.
   - intros H. bridge.
   - open_all.
-    match goal with |- (Rltb ?a ?b = false /\ Rltb ?c ?d = false /\ _) \/ _ => destruct (Rltb a b); destruct (Rltb c d) end; auto.
+    match goal with |- (?f ?a ?b = _ /\ ?g ?c ?d = _ /\ _) \/ _ => destruct (f a b); destruct (g c d) end; auto.
 Qed.
 Print Assumptions C14_bridge_unittwist.
 
@@ -463,7 +470,7 @@ Proof.
   - intros H. bridge.
   - intros H. bridge.
   - open_all.
-    match goal with |- (Rltb ?a ?b = false /\ Rltb ?c ?d = false /\ _) \/ _ => destruct (Rltb a b); destruct (Rltb c d) end; auto.
+    match goal with |- (?f ?a ?b = _ /\ ?g ?c ?d = _ /\ _) \/ _ => destruct (f a b); destruct (g c d) end; auto.
 Qed.
 Print Assumptions C14_bridge_unittwist_norm.
 
@@ -480,8 +487,8 @@ Proof.
   - intros H. bridge.
   - intros H. bridge.
   - intros H. bridge.
-  - open_all. match goal with |- (Rltb ?a ?b = false /\ _) \/ _ => destruct (Rltb a b) end; auto.
-  - open_all. match goal with |- (Rltb ?a ?b = false /\ _) \/ _ => destruct (Rltb a b) end; auto.
+  - open_all. match goal with |- (?f ?a ?b = _ /\ _) \/ _ => destruct (f a b) end; auto.
+  - open_all. match goal with |- (?f ?a ?b = _ /\ _) \/ _ => destruct (f a b) end; auto.
 Qed.
 Print Assumptions C14_bridge_unittwist2.
 
@@ -498,11 +505,12 @@ Theorem C14_bridge_trnorm_pc : forall R R', m_trnorm33 Rops R = Some R' -> pc_tr
 Proof.
   intros R R' H. apply trnorm33_some in H. cbv zeta in H. destruct H as (H1 & H2 & H3 & _).
   revert H1 H2 H3. open_all. intros H1 H2 H3.
-  repeat match goal with |- _ /\ _ => split end; try exact I; apply Rltb_true;
-  match goal with |- _ < sqrt ?x =>
-    first [ replace x with (ltac:(match type of H1 with _ < sqrt ?y => exact y end)) by ring; lra
-          | replace x with (ltac:(match type of H2 with _ < sqrt ?y => exact y end)) by ring; lra
-          | replace x with (ltac:(match type of H3 with _ < sqrt ?y => exact y end)) by ring; lra ] end.
+  repeat match goal with |- _ /\ _ => split end; try exact I;
+  first [apply Rleb_true | apply Rltb_true | apply Rleb_false | apply Rltb_false];
+  match goal with |- context [sqrt ?x] =>
+    first [ replace x with (ltac:(match type of H1 with context [sqrt ?y] => exact y end)) by ring; lra
+          | replace x with (ltac:(match type of H2 with context [sqrt ?y] => exact y end)) by ring; lra
+          | replace x with (ltac:(match type of H3 with context [sqrt ?y] => exact y end)) by ring; lra ] end.
 Qed.
 Print Assumptions C14_bridge_trnorm_pc.
 
@@ -519,10 +527,10 @@ Proof.
   - intros H. bridge.
   - intros H. bridge.
   - open_all.
-    match goal with |- (Rltb ?a ?b = false /\ Rltb ?c ?d = false /\ _) \/ _ => destruct (Rltb a b); destruct (Rltb c d) end; auto.
+    match goal with |- (?f ?a ?b = _ /\ ?g ?c ?d = _ /\ _) \/ _ => destruct (f a b); destruct (g c d) end; auto.
   - intros H. bridge.
   - intros H. bridge.
-  - open_all. match goal with |- (Rltb ?a ?b = false /\ _) \/ _ => destruct (Rltb a b) end; auto.
+  - open_all. match goal with |- (?f ?a ?b = _ /\ _) \/ _ => destruct (f a b) end; auto.
 Qed.
 Print Assumptions C14_bridge_twist_unit.
 
@@ -534,7 +542,7 @@ Proof.
   intros R A. split; [|split; [|split]].
   - intros H. bridge.
   - intros H. bridge.
-  - open_all. match goal with |- (Rltb ?a ?b = true /\ _) \/ _ => destruct (Rltb a b) end; auto.
+  - open_all. match goal with |- (?f ?a ?b = _ /\ _) \/ _ => destruct (f a b) end; auto.
   - intros H. bridge.
 Qed.
 Print Assumptions C14_bridge_trnorm2.
